@@ -21,7 +21,8 @@ func init() {
 			"R3 seal — every append to Buffer.buf is dominated, inside the same critical section, by a test that the buffer is not yet committed, so the digest verified at commit is the digest of the bytes stored; " +
 			"R4 the lock-order graph (acquire B while holding A) is acyclic. " +
 			"R6 Buffer.Commit reports success only after the commit function returned nil in this call; R7 the server answers a manifest GET by tag with the single backend call GetTag. " +
-			"R8 (shared with C04.R6) a refused Buffer.Write assigns no field of the upload, so concurrent stale writers cannot disarm the offset check for one another.",
+			"R8 (shared with C04.R6) a refused Buffer.Write assigns no field of the upload, so concurrent stale writers cannot disarm the offset check for one another. " +
+			"R9 the bytes whose digest gates `committed = true` are read in the same critical section (no unlock between the read of buf that is hashed and the store).",
 		NotDecided: "linearizability of histories itself, and races that a lockset abstraction cannot see (none known: ocimem uses no atomics or channels); behaviour through ociserver relies on the same registry methods.",
 		Technique:  "static analysis: lockset dataflow + greatest-fixpoint held-at-entry over the VTA call graph, critical-section counting, lock-order graph",
 	})
@@ -245,6 +246,7 @@ func runC08(c *core.Ctx) {
 	serverTagReadIsOneCall(c, "C08.R7")
 	// a refused Write changes nothing (shared with C04.R6): two stale writers racing on one session cannot disarm the offset check for each other
 	bufferFailedWriteLeavesState(c, "C08.R8")
+	commitHashesUnderTheLock(c, "C08.R9")
 }
 
 // acquires: does calling fn (transitively, within the package) acquire lock tok?
